@@ -51,6 +51,12 @@ def load_variants() -> List[dict]:
         for pf in sorted(bp.glob("*.diff")):
             for pr in props:
                 out.append({"prop": pr, "id": f"global/refactoring/{pf.stem}", "kind": "B", "rule": "", "patch": str(pf)})
+    # combinations of 3-10 of those refactorings applied together (tools/combine_patches.py): interactions between rewritings
+    bc = VERIF / "selfval" / "benign_combos"
+    if bc.is_dir():
+        for pf in sorted(bc.glob("*.diff")):
+            for pr in props:
+                out.append({"prop": pr, "id": f"global/refactoring-combo/{pf.stem[:9]}", "kind": "B", "rule": "", "patch": str(pf)})
     # regressions: reverse patches of the fix commits (real defects of the pinned tree)
     for r in getattr(mod, "REGRESSIONS", []):
         out.append(dict(r, kind="M", patch=str(VERIF / "selfval" / "regressions" / r["patch"])))
